@@ -494,3 +494,73 @@ M2('c18-flag-bookkeeping-moved-to-receive', 'C18', 'R7', [
         #   present, this pattern is faster than get()
 """},
 ], also=('C17',))
+
+# ------------------------------------------------------------------ the notify protocol read through same-class helpers / hoisted locals
+# (the behaviour-preserving forms are preserving/k1-c18-1 and k1-c18-2; each mutant is that refactoring PLUS a break)
+_NOTIFY_RECEIVE_INLINE = """            self._messages.append(received_event)
+
+            # Notify receive()
+            if self._pop_message_waiter is not None:
+                self._pop_message_waiter.set_result(None)
+                self._pop_message_waiter = None
+"""
+_PUMP_HEAD = """    async def _pump(self) -> None:
+        while not self.client_disconnected:
+"""
+# helper extracted, but it forgets to empty the slot it notified
+M2('c18-notify-helper-keeps-slot', 'C18', 'R2', [
+    {'file': WS, 'old': _NOTIFY_RECEIVE_INLINE, 'new': """            self._messages.append(received_event)
+            self._notify_receive()
+"""},
+    {'file': WS, 'old': _PUMP_HEAD, 'new': """    def _notify_receive(self) -> None:
+        pop_message_waiter = self._pop_message_waiter
+        if pop_message_waiter is not None:
+            pop_message_waiter.set_result(None)
+
+""" + _PUMP_HEAD},
+])
+# helper extracted, but the pump suspends between the append and the call of the helper
+M2('c18-notify-helper-called-after-await', 'C18', 'R1', [
+    {'file': WS, 'old': _NOTIFY_RECEIVE_INLINE, 'new': """            self._messages.append(received_event)
+            await asyncio.sleep(0)
+            self._notify_receive()
+"""},
+    {'file': WS, 'old': _PUMP_HEAD, 'new': """    def _notify_receive(self) -> None:
+        pop_message_waiter = self._pop_message_waiter
+        if pop_message_waiter is not None:
+            pop_message_waiter.set_result(None)
+            self._pop_message_waiter = None
+
+""" + _PUMP_HEAD},
+])
+# helper extracted with the guard inverted (notifies only when nobody waits)
+M2('c18-notify-helper-inverted-guard', 'C18', 'R1', [
+    {'file': WS, 'old': _NOTIFY_RECEIVE_INLINE, 'new': """            self._messages.append(received_event)
+            self._notify_receive()
+"""},
+    {'file': WS, 'old': _PUMP_HEAD, 'new': """    def _notify_receive(self) -> None:
+        pop_message_waiter = self._pop_message_waiter
+        if pop_message_waiter is None:
+            pop_message_waiter.set_result(None)
+            self._pop_message_waiter = None
+
+""" + _PUMP_HEAD},
+])
+# loop invariants hoisted into locals, and the capacity test weakened
+M2('c18-hoisted-locals-gate-gt', 'C18', 'R3', [
+    {'file': WS, 'old': _PUMP_HEAD, 'new': """    async def _pump(self) -> None:
+        messages = self._messages
+        max_queue = self._max_queue
+        while not self.client_disconnected:
+"""},
+    {'file': WS, 'old': "            while len(self._messages) >= self._max_queue:\n", 'new': "            while len(messages) > max_queue:\n"},
+    {'file': WS, 'old': "            self._messages.append(received_event)\n", 'new': "            messages.append(received_event)\n"},
+])
+# hoisted queue local, append at the wrong end
+M2('c18-hoisted-locals-appendleft', 'C18', 'R3', [
+    {'file': WS, 'old': _PUMP_HEAD, 'new': """    async def _pump(self) -> None:
+        messages = self._messages
+        while not self.client_disconnected:
+"""},
+    {'file': WS, 'old': "            self._messages.append(received_event)\n", 'new': "            messages.appendleft(received_event)\n"},
+])
